@@ -219,7 +219,7 @@ func VerifC15_SendMessage() {
 		msg.conv = conv
 	}
 	if zz.Bool("writeFails") {
-		conv.writeErr = zz.Error("writeErr")
+		st.writeErr = zz.Error("writeErr")
 	}
 	ctx := context.Background()
 	var cancel context.CancelFunc
@@ -257,10 +257,11 @@ func VerifC15_SendMessage() {
 		zz.Reach("unrecognised protocol")
 		return
 	}
-	zz.Assert(len(conv.writers) == 1 && conv.writers[0] == io.Writer(st), "the message is written exactly once, to the stream opened to the intended peer")
+	zz.Assert(len(conv.writers) == 1 && log.count("write") == 1, "the message is encoded exactly once and its bytes go, in one delivery, to the stream opened to the intended peer")
+	zz.Assert(log.index("wdl+") < log.index("write") && log.index("write") < log.index("wdl0"), "the bytes reach the stream while the write deadline is in force")
 	zz.Assert(log.count("wdl+") == 1 && log.index("wdl+") < log.index("tonet"), "a write deadline is set before the write")
 	zz.Assert(log.count("wdl0") == 1 && log.index("wdl0") > log.index("tonet"), "the write deadline is cleared after the write")
-	if conv.writeErr != nil {
+	if st.writeErr != nil {
 		zz.Assert(log.count("reset") == 1, "a failed write resets the stream exactly once")
 		zz.Assert(log.count("close") == 0, "a failed write does not close the stream")
 		zz.Assert(log.index("reset") > log.index("tonet"), "reset follows the failed write")
@@ -268,7 +269,7 @@ func VerifC15_SendMessage() {
 			zz.Assert(err == st.resetErr, "a failing reset is what is reported")
 			zz.Reach("write failed, reset failed")
 		} else {
-			zz.Assert(err == conv.writeErr, "the write error is reported")
+			zz.Assert(err == st.writeErr, "the write error is reported")
 			zz.Reach("write failed")
 		}
 		return
